@@ -369,7 +369,7 @@ func (bkt *Bucket) checkAndSet(ki *KeyInfo, v *Payload) error {
 		oldv = payload.Ver
 		if oldv > 0 && v.ValueHash == payload.ValueHash {
 			if Conf.CheckVHash {
-				if v.Ver != 0 {
+				if v.Ver != 0 && abs(v.Ver) > abs(oldv) {
 					// sync script would be here, e.g. set_raw(k, v, rev=xxx)
 					bkt.htree.set(ki, &v.Meta, pos)
 				}
